@@ -161,13 +161,13 @@ impl Property for C04 {
         "C04"
     }
     fn rule(&self) -> &'static str {
-        "proptest single cases: world = gateway + gas service + ITS (current-source token injected natively) with one ITS-deployed token, one registered canonical token with 500 in custody, an executable probe; a trusted-chain history of 0-6 set/remove operations over 3 chains; optionally a prior successful delivery from the same origin; then a conforming delivery (ReceiveFromHub wrapping a mint / a release / a transfer with data / a deploy with or without minter) and at most one deviation from the statement's list (never approved; approved with other payload / id / source address / destination; already executed; approval re-submitted after execution - with 0..150 days passing between approval, delivery and the retries; source chain not the hub (another chain, or the hub's name in another letter case / with a trailing space); source address not the hub address; SendToHub wrapper; raw inner message; inner type 2; origin never trusted / removed again / removed between approval and execution / a trusted name in another letter case or with a trailing space; unknown token; undecodable recipient or minter (garbage, well-formed XDR of a string / number / bytes / vector, truncated address); amount 2^127 / 2^128+a / 2^192+a / 2^255+a; truncated / padded payload; any byte-level mutation - bit flip, dirty type word or padding, shifted offset, altered length - that leaves a non-canonical encoding, applied to the whole payload or to the nested message inside a well-formed envelope; a nested blob of 0..69 bytes; approved under the hub chain but delivered naming the trusted origin chain / the service's own chain / the hub name in another letter case). Oracle: effects (exact balance / custody / registry delta, gateway status executed, second delivery refused) iff no deviation; otherwise execute fails and the ledger snapshot is identical (approval still approved, not executed). non-trivial = a deviation is present, or the trust history contains a removal; distinct by Debug hash"
+        "proptest single cases: world = gateway + gas service + ITS (current-source token injected natively) with one ITS-deployed token, one registered canonical token with 500 in custody, an executable probe; a trusted-chain history of 0-6 set/remove operations over 3 chains; optionally a prior successful delivery from the same origin; then a conforming delivery (ReceiveFromHub wrapping a mint / a release / a transfer with data / a deploy with or without minter; amounts 0 - where acceptance is not decided by the statement -, 1..399 and exactly the custody) and at most one deviation from the statement's list (never approved; approved with other payload / id / source address / destination; already executed; approval re-submitted after execution - with 0..150 days passing between approval, delivery and the retries; source chain not the hub (another chain, or the hub's name in another letter case / with a trailing space); source address not the hub address; SendToHub wrapper; raw inner message; inner type 2; origin never trusted / removed again / removed between approval and execution / a trusted name in another letter case or with a trailing space; unknown token; undecodable recipient or minter (garbage, well-formed XDR of a string / number / bytes / vector, truncated address); amount 2^127 / 2^128+a / 2^192+a / 2^255+a; truncated / padded payload; any byte-level mutation - bit flip, dirty type word or padding, shifted offset, altered length - that leaves a non-canonical encoding, applied to the whole payload or to the nested message inside a well-formed envelope; a nested blob of 0..69 bytes; approved under the hub chain but delivered naming the trusted origin chain / the service's own chain / the hub name in another letter case). Oracle: effects (exact balance / custody / registry delta, gateway status executed, second delivery refused) iff no deviation; otherwise execute fails and the ledger snapshot is identical (approval still approved, not executed). non-trivial = a deviation is present, or the trust history contains a removal; distinct by Debug hash"
     }
     fn cases(&self, tier: Tier) -> u64 {
         tier.pick(15000, 200000)
     }
     fn strategy(&self, _tier: Tier) -> BoxedStrategy<Case> {
-        (proptest::collection::vec((any::<bool>(), 0u8..3), 0..7), 0u8..3, kind(), 1u16..400, 0u8..70, any::<u64>(), dev(), prop_oneof![2 => Just(false), 1 => Just(true)])
+        (proptest::collection::vec((any::<bool>(), 0u8..3), 0..7), 0u8..3, kind(), prop_oneof![1 => Just(0u16), 1 => Just(500u16), 12 => 1u16..400], 0u8..70, any::<u64>(), dev(), prop_oneof![2 => Just(false), 1 => Just(true)])
             .prop_map(|(trust_history, origin, kind, amount, data_len, seed, dev, prior_delivery)| Case { trust_history, origin, kind, amount, data_len, seed, dev, prior_delivery })
             .boxed()
     }
@@ -483,7 +483,15 @@ impl Property for C04 {
         }
         let r = w.execute(source_chain, &mid, source_address, &payload);
         match dev {
+            Dev::None | Dev::AlreadyExecuted | Dev::ReapprovedAfterExecution if amount == 0 && r.is_err() && !matches!(case.kind, Kind::Deploy { .. }) => {
+                // whether a transfer of nothing is honoured is not decided by the statement
+                cx.count("either");
+                cx.label("zero_amount_transfer_refused");
+            }
             Dev::None | Dev::AlreadyExecuted | Dev::ReapprovedAfterExecution => {
+                if amount == 0 {
+                    cx.label("zero_amount_transfer");
+                }
                 cx.count("must_succeed");
                 ensure_p!(r.is_ok(), "conforming delivery ({:?}) was rejected: {:?}", case.kind, r);
                 conforming_effects(cx)?;
